@@ -602,6 +602,8 @@ fn visit_selection<'a, V: Visitor<'a>>(
     ctx: &mut VisitorContext<'a>,
     selection: &'a Positioned<Selection>,
 ) {
+    #[cfg(async_graphql_verif)]
+    crate::verif_hooks::bump(&crate::verif_hooks::VISIT_SELECTION);
     v.enter_selection(ctx, selection);
     match &selection.node {
         Selection::Field(field) => {
@@ -655,6 +657,8 @@ fn visit_field<'a, V: Visitor<'a>>(
     ctx: &mut VisitorContext<'a>,
     field: &'a Positioned<Field>,
 ) {
+    #[cfg(async_graphql_verif)]
+    crate::verif_hooks::bump(&crate::verif_hooks::VISIT_FIELD);
     v.enter_field(ctx, field);
 
     for (name, value) in &field.node.arguments {
